@@ -709,6 +709,17 @@ func (r *RigR) checkDrops(delivered map[string]map[int64]*srcRef, stopped map[in
 			continue
 		}
 		rule := "drop_early"
+		if so := r.opState("stop", k.coll); so != nil && so.done && ev.Appear > so.doneAt {
+			// a drop request produced after the collection was stopped
+			rule = "drop_after_stop"
+			for _, st := range r.mq.All {
+				if st.Coll == k.coll && st.RegStep > so.doneAt {
+					// known defect: a stream whose registration was still in flight when the stop ran is leaked
+					rule = "drop_after_stop_late_registration"
+				}
+			}
+			s.Violate("C04", rule, "drop request for %s was issued (step %d) after the collection had been stopped (step %d)", what, ev.Appear, so.doneAt)
+		}
 		if k.part != 0 {
 			// known defect: the partition barrier is sized by the handlers that had registered the
 			// collection when AddPartition ran; distinguish that precondition from any other early drop
